@@ -5,7 +5,7 @@
    of the VM, VM core, and the effect classes of every Go function from the intra-package call graph.
    The purity statements are closed by vm_compute over that file, so ANY impure entry breaks them. *)
 From Coq Require Import String List Bool.
-From ZV Require Import Generated.SandboxTables Model.Sandbox Proofs.SandboxProofs.
+From ZV Require Import Generated.SandboxTables Model.Sandbox Proofs.SandboxProofs Model.Cmdline Proofs.CmdlineProofs.
 Import ListNotations.
 Open Scope string_scope.
 
@@ -41,6 +41,39 @@ Print Assumptions closure_pure.
 Theorem sandbox_no_effect : forall c p, sandboxed c = true -> effects_of c (run_abs c p) = [].
 Proof. exact SandboxProofs.sandbox_no_effect. Qed.
 Print Assumptions sandbox_no_effect.
+
+(* ---- 4. the command line of cmd/zygo (Model/Cmdline.v mirrors flag.FlagSet.Parse + ReplMain's choice) ----
+   "run under -sandbox" = the flag part of the command line leaves the sandbox flag on; then the run is
+   sandboxed whatever follows the script name (arguments that look like flags, -sandbox=false, -c ...). *)
+Theorem sandbox_flag_decides : forall pre post, forallb is_flag pre = true ->
+  run_cmdline (pre ++ APlain :: post) = (if last_sandbox false pre then OSandboxed else OOpen) /\
+  run_cmdline (pre ++ ADashDash :: post) = (if last_sandbox false pre then OSandboxed else OOpen) /\
+  run_cmdline pre = (if last_sandbox false pre then OSandboxed else OOpen).
+Proof. exact CmdlineProofs.sandbox_flag_decides. Qed.
+Print Assumptions sandbox_flag_decides.
+
+Theorem args_after_script_irrelevant : forall pre post post', forallb is_flag pre = true ->
+  run_cmdline (pre ++ APlain :: post) = run_cmdline (pre ++ APlain :: post') /\
+  run_cmdline (pre ++ ADashDash :: post) = run_cmdline (pre ++ ADashDash :: post').
+Proof. exact CmdlineProofs.args_after_script_irrelevant. Qed.
+Print Assumptions args_after_script_irrelevant.
+
+Theorem value_is_not_a_flag : forall pre a post, forallb is_flag pre = true ->
+  run_cmdline (pre ++ AStr false :: a :: post) = run_cmdline (pre ++ post).
+Proof. exact CmdlineProofs.value_is_not_a_flag. Qed.
+Print Assumptions value_is_not_a_flag.
+
+Theorem bad_flag_rejects : forall pre post, forallb is_flag pre = true ->
+  run_cmdline (pre ++ ABad :: post) = ORejected.
+Proof. exact CmdlineProofs.bad_flag_rejects. Qed.
+Print Assumptions bad_flag_rejects.
+
+Example cmdline_seed_shape : run_cmdline [ASandbox None; APlain; ABool] = OSandboxed.
+Proof. reflexivity. Qed.
+Example cmdline_flag_after_script_is_an_argument : run_cmdline [APlain; ASandbox None] = OOpen.
+Proof. reflexivity. Qed.
+Example cmdline_last_wins : run_cmdline [ASandbox None; ASandbox (Some false); APlain] = OOpen.
+Proof. reflexivity. Qed.
 
 (* ---- non-vacuity: the tables are populated, the classification sees real effects ---- *)
 Example bare_has_many_bindings : Nat.leb 200 (length (bindings Bare)) = true.
